@@ -375,7 +375,11 @@ def run(pid, cfg, tier, seed):
         return {'report': rep, 'backends': ['kani-cbmc', 'native-exhaustive(python)'], 'violations': viol,
                 'exhaustive': {'what': 'magics_ok + table content for all 64 squares x all subsets of the relevance mask (rook and bishop) on every generated magic_table.rs found',
                                'files': len(rep['magic_constants']), 'cases': sum(r['cases'] for r in rep['magic_constants'])}}
-    if pid in ('C03', 'C04') and tier == 'thorough':
+    if pid == 'C18' and tier == 'thorough':
+        fb = fallback_bounded(pid)
+        return {'report': {'kani_bounded_twin': fb['kani']}, 'backends': ['kani-cbmc (bounded stand-in)'], 'violations': fb['violations'],
+                'bounded': [fb['kani']['bound']]}
+    if pid in FALLBACK_PROPS and tier == 'thorough':
         k = run_kani_moves(repo, MOVE_HARNESSES)
         viol = []
         if k['result'] == 'FAILED':
